@@ -162,24 +162,52 @@ theorem C01_loop_thread (cfg : Cfg) (sts : List Step) (s : State) (he : exec cfg
 
 /-- **no lost wake-up** (repaired code): whenever the loop has an eventfd (it is running) and the
 cross-thread queue is not empty, the eventfd counter is positive, so the poll the loop thread is
-in, or will enter next, returns and reports it. -/
+in, or will enter next, returns and reports it.  The executions quantified over contain every fault
+schedule (`Step.fault`): polls interrupted by signals or failing, spurious readiness, failing eventfd
+reads.  The one kernel answer that is excluded is a FAILED WRITE to the eventfd since it was last read
+(`wrLost`, which includes a failed eventfd(): every write then fails) — the code sets the flag
+although nothing was written (`C01_write_fault_loses_wakeup_counterexample`); a non-blocking eventfd
+whose counter is at most 1 never refuses a write of 1, so the hypothesis is the kernel assumption
+"write to a valid eventfd succeeds" + "eventfd() succeeded". -/
 theorem C01_no_lost_wakeup (cfg : Cfg) (hfix : cfg.clearOnClose = true) (sts : List Step) (s : State)
-    (he : exec cfg init sts = some s) (n : Nat) (hfd : s.efd = some n) (hq : s.inLoopQ ≠ []) : 0 < n := by
+    (he : exec cfg init sts = some s) (n : Nat) (hfd : s.efd = some n) (hq : s.inLoopQ ≠ [])
+    (hl : s.wrLost = false) : 0 < n := by
   obtain ⟨_, hw⟩ := exec_wake cfg hfix init sts init_inv init_wake s he
-  have h1 := hw.counter n hfd
-  have h2 := hw.armed (by simp [hfd]) hq
-  simp [h2] at h1; omega
+  exact hw.counter n hfd (hw.armed (by simp [hfd]) hq) hl
 
 /-- … and then the next pass serves the queue: in the poll phase with a non-empty queue, after the
 poll returns the eventfd callback is enabled and "eventfd not reported" is not. -/
 theorem C01_wakeup_served (cfg : Cfg) (hfix : cfg.clearOnClose = true) (sts : List Step) (s : State)
-    (he : exec cfg init sts = some s) (hp : s.phase = .poll) (hq : s.inLoopQ ≠ []) :
-    valid (step cfg s .passBegin) .passWake = true ∧ valid (step cfg s .passBegin) .passSkip = false := by
+    (he : exec cfg init sts = some s) (hp : s.phase = .poll) (hq : s.inLoopQ ≠ []) (hl : s.wrLost = false)
+    (hpoll : s.poll = .ok) :
+    (step cfg s .passBegin).wakeSeen = true ∧ valid (step cfg s .passBegin) .passSkip = false ∧
+    ((step cfg s .passBegin).timerDue = false → valid (step cfg s .passBegin) .passWake = true) := by
   have hi := exec_inv cfg init sts init_inv s he
   have hsome : s.efd.isSome = true := hi.fdRun.2 (Or.inl hp)
   obtain ⟨n, hn⟩ := Option.isSome_iff_exists.1 hsome
-  have := C01_no_lost_wakeup cfg hfix sts s he n hn hq
-  simp [step, valid, hn, this]
+  have := C01_no_lost_wakeup cfg hfix sts s he n hn hq hl
+  refine ⟨by simp [step, pollSees, hn, this, hpoll], by simp [step, valid, pollSees, hn, this, hpoll], ?_⟩
+  intro hd
+  simp only [step] at hd
+  simp [step, valid, pollSees, hn, this, hpoll, hd]
+
+/-- **a poll interrupted by a signal (or failing) consumes nothing**: the pass that follows does not run the
+eventfd callback, the counter, the flag and the queue are as before — so the wake-up invariant
+(`C01_no_lost_wakeup`, which holds in every reachable state, also after any number of such passes) makes the
+next uninterrupted poll report the eventfd (`C01_wakeup_served`). -/
+theorem C01_eintr_keeps_wakeup (cfg : Cfg) (s : State) (hi : s.poll = .intr ∨ s.poll = .err) :
+    let s' := step cfg s .passBegin
+    s'.wakeSeen = false ∧ s'.efd = s.efd ∧ s'.hasCommit = s.hasCommit ∧ s'.inLoopQ = s.inLoopQ ∧ s'.wrLost = s.wrLost ∧
+    s'.poll = .ok := by
+  rcases hi with h | h <;> simp [step, pollSees, h]
+
+/-- a spurious readiness report (counter 0, the read fails with EAGAIN) or a failing read costs one pass and
+nothing else: the swap is done, the flag is cleared, the queue handed to the batch — stated on the step; the
+invariants hold across it (`exec_inv`, `exec_wake` quantify over it). -/
+theorem C01_read_fault_harmless (cfg : Cfg) (s : State) (hr : s.rdFail = true) :
+    let s' := step cfg s .passWake
+    s'.efd = s.efd ∧ s'.hasCommit = false ∧ s'.tmpQ = s.inLoopQ ∧ s'.inLoopQ = s.tmpQ ∧ s'.rdFail = false := by
+  simp [step, hr]
 
 /-- the program of the witness: task 1 submits task 0 through runInLoop and calls exitLoop() -/
 def witnessProg : Nat → List Act
@@ -242,7 +270,9 @@ def actLocks (s : State) : Act → Bool
   | .inLoop _ => true
   | .cancel id => id != 0 && !hasId s.tmpQ id && id % 2 != 1
   | .exit => s.exitTimer
-  | .exitLater => s.exitTimer
+  | .exitLater _ => s.exitTimer
+  | .run _ => true            -- run() looks at the running state under lock_
+  | .nestedRun => true        -- runLoop() asks isRunning() (lock_) and returns
   | _ => false
 
 /-- the step runs (partly) inside a critical section of lock_ -/
@@ -252,14 +282,16 @@ def holdsLock (s : State) : Step → Bool
   | .cbAct a => actLocks s a
   | .loopStart _ _ => true
   | .passWake => true
-  | .act => (s.phase == .drain && !s.destroying) || (match s.cur with | a :: _ => actLocks s a | [] => false)
-  | .drainGen => !s.destroying
-  | .drainExec => !s.destroying
-  | .drainEnd => !s.destroying
+  | .act => (s.phase == .drain && (!s.destroying || s.userCleanup)) || (match s.cur with | a :: _ => actLocks s a | [] => false)
+  | .drainGen => !s.destroying || s.userCleanup
+  | .drainExec => !s.destroying || s.userCleanup
+  | .drainEnd => !s.destroying || s.userCleanup
+  | .submitRun _ _ => true
+  | .cleanup _ => true
   | _ => false
 
 /-- the object is being destroyed: by contract no other thread uses it -/
-def exclusive (s : State) : Bool := s.phase == .drain && s.destroying
+def exclusive (s : State) : Bool := s.phase == .drain && s.destroying && !s.userCleanup
 
 /-- **lock discipline.**  A step that does not hold lock_ (and is not part of the destructor)
 leaves the lock-protected variables — cross-thread queue, pending-wake flag, eventfd, even id
@@ -275,10 +307,12 @@ theorem C01_lock_discipline (cfg : Cfg) (s : State) (st : Step) (hv : valid s st
     intro s0 tid a ha
     cases a with
     | inLoop k => simp [actLocks] at ha
-    | next k => simp [doAct, submitNext]
+    | next k => simp [doAct, submitNext, noteNext]
     | exit => simp only [actLocks] at ha; simp [doAct, dropExitTimer, ha]
-    | exitLater => simp only [actLocks] at ha; simp [doAct, dropExitTimer, ha]
+    | exitLater w => simp only [actLocks] at ha; simp [doAct, dropExitTimer, ha]
     | throw => simp [doAct]
+    | run k => simp [actLocks] at ha
+    | nestedRun => simp [actLocks] at ha
     | cancel id =>
       simp only [actLocks, Bool.and_eq_false_iff, bne_eq_false_iff_eq, Bool.not_eq_false'] at ha
       simp only [doAct, cancel]
@@ -305,6 +339,12 @@ theorem C01_lock_discipline (cfg : Cfg) (s : State) (st : Step) (hv : valid s st
   | execFront => simp only [step]; split <;> simp
   | passEnd => simp only [step]; split <;> simp
   | destroy t => simp [step]
+  | fault f => cases f <;> simp [step, setFault]
+  | tick d => simp [step]
+  | setWL a b => simp [step]
+  | passBreak => simp [step]
+  | submitRun t k => simp [holdsLock] at hl
+  | cleanup t => simp [holdsLock] at hl
   | act =>
     simp only [holdsLock, Bool.or_eq_false_iff] at hl
     simp only [step]
@@ -316,16 +356,16 @@ theorem C01_lock_discipline (cfg : Cfg) (s : State) (st : Step) (hv : valid s st
     · simp
   | drainGen =>
     simp only [valid, Bool.and_eq_true, beq_iff_eq] at hv
-    simp only [holdsLock, Bool.not_eq_false'] at hl
-    simp [exclusive, hv.1.1.1, hl] at hx
+    simp only [holdsLock, Bool.or_eq_false_iff, Bool.not_eq_false'] at hl
+    simp [exclusive, hv.1.1.1, hl.1, hl.2] at hx
   | drainExec =>
     simp only [valid, Bool.and_eq_true, beq_iff_eq] at hv
-    simp only [holdsLock, Bool.not_eq_false'] at hl
-    simp [exclusive, hv.1.1, hl] at hx
+    simp only [holdsLock, Bool.or_eq_false_iff, Bool.not_eq_false'] at hl
+    simp [exclusive, hv.1.1, hl.1, hl.2] at hx
   | drainEnd =>
     simp only [valid, Bool.and_eq_true, beq_iff_eq] at hv
-    simp only [holdsLock, Bool.not_eq_false'] at hl
-    simp [exclusive, hv.1.1.1, hl] at hx
+    simp only [holdsLock, Bool.or_eq_false_iff, Bool.not_eq_false'] at hl
+    simp [exclusive, hv.1.1.1, hl.1, hl.2] at hx
 
 /-- **loop-thread-only variables.**  A cross-thread submission touches nothing but the
 lock-protected variables (and the ghost log): run-next queue, batches, id allocator of `runNext`,
@@ -367,7 +407,7 @@ theorem C01_exit_timer_internal_task (cfg : Cfg) (s : State) (tid : Nat) (h : s.
     (doAct cfg s tid .exit).nextAlloc = s.nextAlloc + 2 ∧
     idsOf (doAct cfg s tid .exit).nextQ = idsOf s.nextQ ++ [s.nextAlloc + 2] ∧
     (doAct cfg s tid .exit).keepRunning = false ∧ (doAct cfg s tid .exit).exitTimer = false := by
-  simp [doAct, dropExitTimer, h, submitNext]
+  simp [doAct, dropExitTimer, h, submitNext, noteNext]
 
 /-! ### exceptions thrown by callables (repaired code: patches/C01-02) -/
 
@@ -416,6 +456,335 @@ theorem C01_throw_witness_repaired :
     (exec (fixedCfg throwProg') init (throwWitness ++ [.drainExec, .drainEnd])).map
       (fun s => (idsOf (pend s), s.executed, s.phase)) = some ([], [6, 4, 2], .idle) := by decide
 
+
+/-! ### round 7: run(), parity of ids, kernel faults, clock and poll timeout, cleanup(), water line -/
+
+/-- **the parity of an id identifies its queue, for every id ever issued** — and therefore `cancel`, which
+looks at the batch being executed and then only at the queue named by the parity, is COMPLETE: it answers
+true exactly when the id sits in one of the three containers it may still be removed from. -/
+theorem C01_parity_identifies_queue (cfg : Cfg) (sts : List Step) (s : State) (he : exec cfg init sts = some s) :
+    (∀ t ∈ s.inLoopQ, t.id % 2 = 0 ∧ 2 ≤ t.id) ∧ (∀ t ∈ s.nextQ, t.id % 2 = 1 ∧ 3 ≤ t.id) ∧
+    (∀ id, accepted s id → (id % 2 = 0 → id ∉ idsOf s.nextQ) ∧ (id % 2 = 1 → id ∉ idsOf s.inLoopQ)) ∧
+    ∀ id, cancelRet s id = true ↔ id ∈ idsOf (s.tmpQ ++ s.nextQ ++ s.inLoopQ) := by
+  have hi := exec_inv cfg init sts init_inv s he
+  have hacc : ∀ id, id ∈ idsOf (s.tmpQ ++ s.nextQ ++ s.inLoopQ) → accepted s id := by
+    intro id hid
+    refine accepted_of_mem_line hi ?_
+    rw [line_def]
+    simp only [idsOf_append, List.mem_append] at hid ⊢
+    rcases hid with (h | h) | h
+    · exact Or.inr (Or.inl (Or.inl (Or.inl h)))
+    · exact Or.inr (Or.inl (Or.inr h))
+    · exact Or.inr (Or.inr h)
+  have mem_ids : ∀ (q : List Task) (t : Task), t ∈ q → t.id ∈ idsOf q := fun q t ht => List.mem_map.2 ⟨t, ht, rfl⟩
+  refine ⟨?_, ?_, ?_, ?_⟩
+  · intro t ht
+    have ha := hacc t.id (by simp only [idsOf_append, List.mem_append]; exact Or.inr (mem_ids _ _ ht))
+    have hp := hi.parIn t ht
+    unfold accepted at ha
+    exact ⟨hp, by omega⟩
+  · intro t ht
+    have ha := hacc t.id (by simp only [idsOf_append, List.mem_append]; exact Or.inl (Or.inr (mem_ids _ _ ht)))
+    have hp := hi.parNext t ht
+    unfold accepted at ha
+    exact ⟨hp, by omega⟩
+  · intro id _
+    exact ⟨fun h0 hm => by have := idsOf_par_next _ hi.parNext id hm; omega,
+           fun h1 hm => by have := idsOf_par_in _ hi.parIn id hm; omega⟩
+  · intro id
+    constructor
+    · intro hr
+      simp only [cancelRet] at hr
+      simp only [idsOf_append, List.mem_append]
+      split at hr
+      · cases hr
+      · split at hr
+        · rename_i ht; exact Or.inl (Or.inl ((hasId_iff _ _).1 ht))
+        · split at hr
+          · exact Or.inl (Or.inr ((hasId_iff _ _).1 hr))
+          · exact Or.inr ((hasId_iff _ _).1 hr)
+    · intro hm
+      have ha := hacc id hm
+      have h0 : id ≠ 0 := by unfold accepted at ha; omega
+      simp only [idsOf_append, List.mem_append] at hm
+      simp only [cancelRet, h0, if_false]
+      by_cases ht : hasId s.tmpQ id = true
+      · simp [ht]
+      · simp only [ht, if_false]
+        have hnt : id ∉ idsOf s.tmpQ := fun h => ht ((hasId_iff _ _).2 h)
+        rcases hm with (h | h) | h
+        · exact absurd h hnt
+        · have := idsOf_par_next _ hi.parNext id h
+          simp [this, (hasId_iff _ _).2 h]
+        · have := idsOf_par_in _ hi.parIn id h
+          have hne : ¬ id % 2 = 1 := by omega
+          simp [hne, (hasId_iff _ _).2 h]
+
+/-- **`run()` picks the entry point by thread and running state**: from the loop thread (a callable, a timer/fd
+callback, the shutdown drain) and from the owner while the loop is not running it is `runNext`; from any other
+thread while the loop runs it is `runInLoop` (lock_, wake-up committed). -/
+theorem C01_run_picks_queue (cfg : Cfg) (sts : List Step) (s : State) (he : exec cfg init sts = some s) (k tid : Nat) :
+    doAct cfg s s.loopTid (.run k) = submitNext s s.loopTid (cfg.prog k) ∧
+    (s.phase = .idle → doAct cfg s tid (.run k) = submitNext s tid (cfg.prog k)) ∧
+    (valid s (.submitRun tid k) = true → step cfg s (.submitRun tid k) = submitInLoop s tid (cfg.prog k)) := by
+  have hi := exec_inv cfg init sts init_inv s he
+  refine ⟨by simp [doAct], ?_, ?_⟩
+  · intro hp
+    have hfd := hi.fdRun
+    simp [hp] at hfd
+    simp [doAct, hfd]
+  · intro hv
+    simp only [valid, Bool.and_eq_true, bne_iff_ne, ne_eq] at hv
+    obtain ⟨⟨⟨h1, h2⟩, h3⟩, h4⟩ := hv
+    have hsome : s.efd.isSome = true := by
+      refine hi.fdRun.2 ?_
+      have hq := hi.shapeDrain
+      cases hp : s.phase <;> simp_all
+    simp [step, doAct, hsome, h4]
+
+/-- **a failed eventfd write loses the wake-up** (code as it is; kernel answer excluded by `wrLost = false` in
+`C01_no_lost_wakeup`): the loop is polling, the queue holds the task, the flag says "wake-up pending", the counter
+is 0. -/
+theorem C01_write_fault_loses_wakeup_counterexample :
+    (exec (fixedCfg witnessProg) init [.loopStart 0 true, .fault .wrFail, .submit 1 0]).map
+      (fun s => (s.phase, s.efd, idsOf s.inLoopQ, s.hasCommit, s.wrLost)) = some (.poll, some 0, [2], true, true) := by decide
+
+/-- **eventfd() failing (EMFILE) when the loop starts**: the loop runs, every wake-up write fails (fd -1), the
+eventfd callback can never run; cross-thread tasks wait for the shutdown drain.  Total, but deaf. -/
+theorem C01_eventfd_create_fail_counterexample :
+    (exec (fixedCfg witnessProg) init [.fault .efdFail, .loopStart 0 true, .submit 1 0, .passBegin, .passSkip, .passNext, .passEnd,
+        .passBegin, .cbAct .exit, .passSkip, .passNext, .passEnd, .drainGen, .drainExec, .drainEnd]).map
+      (fun s => (s.phase, s.executed, s.fdBad)) = some (.idle, [2], false) := by decide
+
+/-- the hard poll error of the select engine leaves the loop through the shutdown drain (nothing is dropped:
+`C01_drained_on_exit` covers this drain too); the epoll engine treats it like EINTR. -/
+theorem C01_poll_error_select_drains (cfg : Cfg) (s : State) (hsel : cfg.selectEngine = true) (hp : s.phase = .poll)
+    (he : s.poll = .err) (hx : s.exitTimer = false) :
+    valid (step cfg s .passBegin) .passBreak = true ∧ valid (step cfg s .passBegin) .passSkip = false ∧
+    (step cfg (step cfg s .passBegin) .passBreak).phase = .drain ∧ (step cfg (step cfg s .passBegin) .passBreak).remain = 100 := by
+  simp [step, valid, hsel, he, hx, pollSees]
+
+theorem C01_poll_error_epoll_continues (cfg : Cfg) (s : State) (hsel : cfg.selectEngine = false) :
+    (step cfg s .passBegin).broke = false := by
+  simp [step, hsel]
+
+/-- **the exit timer never fires early**: in every reachable state in which `timerExit` is enabled the timer is
+armed and the clock has reached its deadline `exitAt` (= clock at `exitLoop(w)` + w, `C01_exit_timer_deadline`). -/
+theorem C01_exit_timer_not_early (cfg : Cfg) (sts : List Step) (s : State) (he : exec cfg init sts = some s)
+    (hv : valid s .timerExit = true) : s.exitTimer = true ∧ s.exitAt ≤ s.clock := by
+  have ht := exec_time cfg init sts init_time s he
+  simp only [valid, Bool.and_eq_true, beq_iff_eq] at hv
+  exact ⟨(ht.due hv.2).1, (ht.due hv.2).2.1⟩
+
+theorem C01_exit_timer_deadline (cfg : Cfg) (s : State) (tid w : Nat) :
+    (doAct cfg s tid (.exitLater w)).exitAt = s.clock + w ∧ (doAct cfg s tid (.exitLater w)).exitTimer = true ∧
+    (doAct cfg s tid (.exitLater w)).timerDue = false ∨ (s.exitTimer = false ∧ (doAct cfg s tid (.exitLater w)).exitAt = s.clock + w) := by
+  by_cases h : s.exitTimer = true
+  · left; simp [doAct, dropExitTimer, h, submitNext, noteNext]
+  · right; simp [doAct, dropExitTimer, h]
+
+/-- … and never late in terms of passes: a pass whose poll returns at or after the deadline finds the timer due,
+and cannot go on to the batches (or leave through `break`) before it has fired. -/
+theorem C01_exit_timer_fires (cfg : Cfg) (s : State) (hx : s.exitTimer = true) (hd : s.exitAt ≤ s.clock) :
+    let s' := step cfg s .passBegin
+    s'.timerDue = true ∧ valid s' .passWake = false ∧ valid s' .passSkip = false ∧ valid s' .passBreak = false ∧
+    (s.phase = .poll → valid s' .timerExit = true) := by
+  simp [step, valid, hx, hd]
+
+/-- **width of the poll timeout.**  `getWaitTime()` is 64 bit; the epoll engine hands `static_cast<int>` of it to
+epoll_wait after clamping at INT_MAX.  With the clamp the cast is the identity: "for ever" stays -1, a
+non-negative wait stays non-negative (never "for ever"), never exceeds the real wait (never oversleeps the
+deadline), equals it below 2^31 and stays positive for a positive wait (no busy polling).  The select engine
+passes the 64-bit value. -/
+theorem C01_poll_timeout_width (cfg : Cfg) (s : State) :
+    (waitTime s = -1 → pollTimeout cfg s = -1) ∧
+    (0 ≤ waitTime s → 0 ≤ pollTimeout cfg s ∧ pollTimeout cfg s ≤ waitTime s ∧
+      (waitTime s ≤ 2147483647 → pollTimeout cfg s = waitTime s) ∧ (0 < waitTime s → 0 < pollTimeout cfg s)) ∧
+    (cfg.selectEngine = true → pollTimeout cfg s = waitTime s) ∧ (-1 ≤ waitTime s) := by
+  have hge : -1 ≤ waitTime s := by
+    unfold waitTime; split
+    · omega
+    · split
+      · split <;> omega
+      · omega
+  unfold pollTimeout toInt32
+  cases cfg.selectEngine
+  · simp only [Bool.false_eq_true, ↓reduceIte]
+    refine ⟨?_, ?_, ?_, hge⟩
+    · intro h; rw [h]; decide
+    · intro h0
+      split <;> omega
+    · intro h; cases h
+  · simp only [↓reduceIte]
+    exact ⟨fun h => h, fun h0 => ⟨h0, Int.le_refl _, fun _ => trivial, fun h => h⟩, fun _ => trivial, hge⟩
+
+/-- without the clamp (the code before the fix of the timer property) a wait of 2^31 ms is handed over as a negative
+number = wait for ever, and 2^32 ms as 0 = busy polling -/
+theorem C01_poll_timeout_unclamped_counterexample : toInt32 2147483648 = -2147483648 ∧ toInt32 4294967296 = 0 := by decide
+
+/-- **the public `cleanup()`** (loop not running) runs the same drain as loop exit and returns to idle with the
+loop object alive and reusable; `C01_drained_on_exit` (stated on `drainEnd`) and `C01_pending_at_exit_run` cover it. -/
+theorem C01_cleanup_returns_idle (cfg : Cfg) (s : State) (tid : Nat) (hp : s.phase = .idle) :
+    valid s (.cleanup tid) = true ∧ (step cfg s (.cleanup tid)).phase = .drain ∧ (step cfg s (.cleanup tid)).remain = 100 ∧
+    exclusive (step cfg s (.cleanup tid)) = false ∧ valid (step cfg s (.cleanup tid)) (.submit 1 0) = false ∧
+    ∀ s', s'.phase = .drain → s'.destroying = true → s'.userCleanup = true → (step cfg s' .drainEnd).phase = .idle := by
+  refine ⟨by simp [valid, hp], by simp [step], by simp [step], by simp [step, exclusive], by simp [step, valid], ?_⟩
+  intro s' _ hd hu
+  simp [step, hd, hu]
+
+/-- lock discipline of the code as found: the drain of `cleanup()` does not hold lock_ -/
+def holdsLockFound (s : State) : Step → Bool
+  | .drainGen => !s.destroying
+  | .drainExec => !s.destroying
+  | .drainEnd => !s.destroying
+  | st => holdsLock s st
+
+/-- **`cleanup()` as found empties the cross-thread queue without lock_** while other threads may legitimately be
+inside `runInLoop` (the object is not being destroyed): the step is enabled, holds no lock, is not exclusive, and
+changes `run_in_loop_func_queue_` — the lock-discipline theorem is false for it.  patches/C01-03 takes lock_. -/
+theorem C01_cleanup_unlocked_counterexample :
+    (exec (fixedCfg witnessProg) init [.submit 1 0, .cleanup 0]).map
+      (fun s => (valid s .drainGen, holdsLockFound s .drainGen, exclusive s, idsOf s.inLoopQ,
+                 idsOf (step (fixedCfg witnessProg) s .drainGen).inLoopQ)) = some (true, false, false, [2], []) := by decide
+
+/-- **destruction**: the engine's destructor drains (≤ 100 generations), then `~CommonLoop` deletes the exit timer — an
+armed one defers the release of its record as one more deferred task — and drains again (patches/C01-05; before, that
+task was dropped and the record leaked).  `drainEnd` of the first drain starts the second, `drainEnd` of the second
+ends the object; `C01_drained_on_exit` speaks about both. -/
+theorem C01_destructor_two_drains (cfg : Cfg) (s : State) (hd : s.destroying = true) (hu : s.userCleanup = false) :
+    (s.finalDrain = false → (step cfg s .drainEnd).phase = s.phase ∧ (step cfg s .drainEnd).remain = 100 ∧
+        (step cfg s .drainEnd).finalDrain = true ∧ (step cfg s .drainEnd).exitTimer = false ∧
+        (s.exitTimer = true → idsOf (step cfg s .drainEnd).nextQ = idsOf s.nextQ ++ [s.nextAlloc + 2])) ∧
+    (s.finalDrain = true → (step cfg s .drainEnd).phase = .dead) := by
+  refine ⟨?_, ?_⟩
+  · intro hf
+    by_cases hx : s.exitTimer = true <;> simp [step, hd, hu, hf, hx, dropExitTimer, submitNext, noteNext]
+  · intro hf; simp [step, hd, hu, hf]
+
+/-- the code as found: an exit timer armed at destruction posts its release after the last drain: dropped (leak) -/
+theorem C01_destructor_drops_timer_release_counterexample :
+    (execFound (foundCfg witnessProg) init [.idleAct 0 (.exitLater 5), .destroy 0, .drainEnd]).map
+      (fun s => (s.phase, idsOf s.nextQ, s.executed)) = some (.dead, [3], []) ∧
+    (exec (fixedCfg witnessProg) init [.idleAct 0 (.exitLater 5), .destroy 0, .drainEnd, .drainGen, .drainExec, .drainEnd]).map
+      (fun s => (s.phase, idsOf s.nextQ, s.executed)) = some (.dead, [], [3]) := by decide
+
+/-- `runLoop()` called from a callable or callback of the running loop is refused (patches/C01-04): nothing changes -/
+theorem C01_nested_run_refused (cfg : Cfg) (s : State) (tid : Nat) : doAct cfg s tid .nestedRun = s := rfl
+
+/-! #### water line and statistics do not influence execution -/
+
+/-- forget the water-line configuration, the notice counter and the peak statistics -/
+def eraseStat (s : State) : State := { s with wlIn := 0, wlNext := 0, notices := 0, inPeak := 0, nextPeak := 0 }
+/-- set them to arbitrary values -/
+def setStat (s : State) (a b c d e : Nat) : State := { s with wlIn := a, wlNext := b, notices := c, inPeak := d, nextPeak := e }
+
+theorem eraseStat_commit (s : State) (a b c d e : Nat) : eraseStat (commit (setStat s a b c d e)) = eraseStat (commit s) := by
+  unfold commit setStat eraseStat
+  simp only
+  split
+  · rfl
+  · split <;> rfl
+
+theorem eraseStat_submitInLoop (s : State) (a b c d e tid : Nat) (body : List Act) :
+    eraseStat (submitInLoop (setStat s a b c d e) tid body) = eraseStat (submitInLoop s tid body) := by
+  unfold submitInLoop noteIn setStat eraseStat
+  simp only
+  split
+  · unfold commit
+    simp only
+    split
+    · rfl
+    · split <;> rfl
+  · rfl
+
+theorem eraseStat_submitNext (s : State) (a b c d e tid : Nat) (body : List Act) :
+    eraseStat (submitNext (setStat s a b c d e) tid body) = eraseStat (submitNext s tid body) := rfl
+
+theorem eraseStat_doAct (cfg : Cfg) (s : State) (a b c d e tid : Nat) (x : Act) :
+    eraseStat (doAct cfg (setStat s a b c d e) tid x) = eraseStat (doAct cfg s tid x) := by
+  cases x with
+  | inLoop k => exact eraseStat_submitInLoop s a b c d e tid _
+  | next k => rfl
+  | cancel id =>
+    by_cases h0 : id = 0 <;> by_cases h1 : hasId s.tmpQ id = true <;> by_cases h2 : id % 2 = 1 <;>
+      simp [doAct, cancel, cancelRet, setStat, eraseStat, h0, h1, h2]
+  | exit => by_cases h : s.exitTimer = true <;> simp [doAct, dropExitTimer, setStat, eraseStat, submitNext, noteNext, h]
+  | exitLater w => by_cases h : s.exitTimer = true <;> simp [doAct, dropExitTimer, setStat, eraseStat, submitNext, noteNext, h]
+  | throw => rfl
+  | run k =>
+    simp only [doAct]
+    have : (setStat s a b c d e).efd = s.efd ∧ (setStat s a b c d e).loopTid = s.loopTid := ⟨rfl, rfl⟩
+    rw [this.1, this.2]
+    split
+    · exact eraseStat_submitInLoop s a b c d e tid _
+    · rfl
+  | nestedRun => rfl
+
+/-- **queue behaviour is independent of the water line**: whatever `water_line()` holds and whatever the statistics
+say, a step is enabled in the same states and leads to the same state up to water line, notice count and peaks. -/
+theorem C01_waterline_independent (cfg : Cfg) (s : State) (st : Step) (a b c d e : Nat) :
+    valid (setStat s a b c d e) st = valid s st ∧
+    eraseStat (step cfg (setStat s a b c d e) st) = eraseStat (step cfg s st) := by
+  refine ⟨by cases st <;> rfl, ?_⟩
+  cases st with
+  | submit tid k => exact eraseStat_submitInLoop s a b c d e tid _
+  | idleAct tid x => exact eraseStat_doAct cfg s a b c d e tid x
+  | cbAct x => exact eraseStat_doAct cfg s a b c d e _ x
+  | submitRun tid k => exact eraseStat_doAct cfg s a b c d e tid (.run k)
+  | act =>
+    simp only [step]
+    have hc : (setStat s a b c d e).cur = s.cur := rfl
+    rw [hc]
+    split
+    · exact eraseStat_doAct cfg { s with cur := _ } a b c d e _ _
+    · rfl
+  | loopStart tid forever =>
+    by_cases h1 : s.inLoopQ.isEmpty = true <;> by_cases h2 : s.hasCommit = true <;> by_cases h3 : s.wrFail = true <;>
+      by_cases h4 : s.efdFail = true <;> simp [step, commit, setStat, eraseStat, h1, h2, h3, h4]
+  | passBegin => rfl
+  | timerExit => rfl
+  | passWake => rfl
+  | passSkip => rfl
+  | execFront => cases h : s.tmpQ <;> simp [step, setStat, eraseStat, h]
+  | passNext => rfl
+  | passEnd => by_cases h : s.keepRunning = true <;> simp [step, setStat, eraseStat, h]
+  | drainGen => rfl
+  | drainExec => cases h : s.dQ <;> simp [step, setStat, eraseStat, h]
+  | drainEnd =>
+    by_cases h1 : s.destroying = true <;> by_cases h2 : s.userCleanup = true <;> by_cases h3 : s.finalDrain = true <;>
+      by_cases h4 : s.exitTimer = true <;> simp [step, setStat, eraseStat, dropExitTimer, submitNext, noteNext, h1, h2, h3, h4]
+  | destroy tid => rfl
+  | fault f => cases f <;> rfl
+  | tick n => rfl
+  | passBreak => rfl
+  | cleanup tid => rfl
+  | setWL x y => rfl
+
+/-- … hence for whole executions: two runs of the same step list from states that differ only in water line and
+statistics stay enabled together and end in states that differ only there. -/
+theorem C01_waterline_independent_exec (cfg : Cfg) (sts : List Step) (s : State) (a b c d e : Nat) :
+    (exec cfg (setStat s a b c d e) sts).map eraseStat = (exec cfg s sts).map eraseStat := by
+  induction sts generalizing s a b c d e with
+  | nil => rfl
+  | cons st sts ih =>
+    obtain ⟨hv, hs⟩ := C01_waterline_independent cfg s st a b c d e
+    simp only [exec, hv]
+    split
+    · have e1 : step cfg (setStat s a b c d e) st = setStat (eraseStat (step cfg s st))
+          (step cfg (setStat s a b c d e) st).wlIn (step cfg (setStat s a b c d e) st).wlNext (step cfg (setStat s a b c d e) st).notices
+          (step cfg (setStat s a b c d e) st).inPeak (step cfg (setStat s a b c d e) st).nextPeak := by
+        rw [← hs]; rfl
+      have e2 : step cfg s st = setStat (eraseStat (step cfg s st))
+          (step cfg s st).wlIn (step cfg s st).wlNext (step cfg s st).notices (step cfg s st).inPeak (step cfg s st).nextPeak := rfl
+      have l := ih (eraseStat (step cfg s st)) (step cfg (setStat s a b c d e) st).wlIn (step cfg (setStat s a b c d e) st).wlNext
+        (step cfg (setStat s a b c d e) st).notices (step cfg (setStat s a b c d e) st).inPeak (step cfg (setStat s a b c d e) st).nextPeak
+      have r := ih (eraseStat (step cfg s st)) (step cfg s st).wlIn (step cfg s st).wlNext (step cfg s st).notices
+        (step cfg s st).inPeak (step cfg s st).nextPeak
+      rw [← e1] at l
+      rw [← e2] at r
+      rw [l, r]
+    · rfl
+
 /-! ### non-vacuity: concrete executions satisfying the hypotheses -/
 
 /-- tasks: 1 = [runNext 0, cancel 5 (hit in the queue), runNext 0, exit], 2 = [cancel 2 (already run)] -/
@@ -431,7 +800,7 @@ runNext task 5 runs in the same pass), exits, drains task 6, is run again once b
 def demo : List Step :=
   [.submit 1 1, .submit 2 2, .loopStart 0 true, .passBegin, .passWake, .execFront, .act, .act, .act, .submit 3 0, .act,
    .execFront, .act, .passNext, .execFront, .passEnd, .drainGen, .drainExec, .drainEnd,
-   .submit 1 0, .loopStart 7 false, .passBegin, .passWake, .execFront, .passNext, .passEnd, .drainEnd, .destroy 7, .drainEnd]
+   .submit 1 0, .loopStart 7 false, .passBegin, .passWake, .execFront, .passNext, .passEnd, .drainEnd, .destroy 7, .drainEnd, .drainEnd]
 
 example : (exec (fixedCfg demoProg) init demo).map (fun s => (s.executed, s.cancelled, s.phase, idsOf (pend s))) =
     some ([8, 6, 5, 4, 2], [3], .dead, []) := by decide
@@ -448,9 +817,10 @@ example : (exec (fixedCfg demoProg) init demo).map (fun s => (cancelIds s.log, s
     some ([3], [.cancel 2 false]) := by decide
 /-- `C01_exit_timer` / `C01_exit_timer_internal_task`: a run where the exit timer is armed from a callable,
 fires in the next pass, is armed again while idle and dropped by `exitLoop()` (internal task 5) -/
-example : (exec (fixedCfg (fun k => if k = 1 then [.exitLater] else [])) init
-    [.submit 1 1, .loopStart 0 true, .passBegin, .passWake, .execFront, .act, .passNext, .passEnd,
-     .passBegin, .timerExit, .passSkip, .passNext, .passEnd, .drainEnd, .idleAct 0 .exitLater, .idleAct 0 .exit]).map
+example : (exec (fixedCfg (fun k => if k = 1 then [.exitLater 5] else [])) init
+    [.submit 1 1, .loopStart 0 true, .passBegin, .passWake, .execFront, .act, .passNext, .passEnd, .tick 4,
+     .passBegin, .passSkip, .passNext, .passEnd, .tick 1,
+     .passBegin, .timerExit, .passSkip, .passNext, .passEnd, .drainEnd, .idleAct 0 (.exitLater 7), .idleAct 0 .exit]).map
     (fun s => (s.phase, s.exitTimer, s.keepRunning, idsOf s.nextQ)) = some (.idle, false, false, [3]) := by decide
 /-- `NoWrap` holds in the demo's final state -/
 example : (exec (fixedCfg demoProg) init demo).map (fun s => decide (NoWrap s)) = some true := by decide
@@ -468,5 +838,47 @@ def drainAll : Nat → List Step
 example : (exec (fixedCfg chainProg) init ([.idleAct 0 (.next 0), .loopStart 0 false, .passBegin, .passSkip, .passNext,
       .execFront, .act, .passEnd] ++ drainAll 100)).map (fun s => (s.executed.length, idsOf s.nextQ, s.phase)) =
     some (101, [205], .idle) := by decide +kernel
+
+/-- `C01_parity_identifies_queue` / `C01_run_picks_queue`: run() from another thread while the loop runs takes an
+even id, from a callable an odd one; both are found by cancel through their parity -/
+example : (exec (fixedCfg (fun k => if k = 1 then [.run 0, .cancel 3, .cancel 4] else [])) init
+    [.submit 1 1, .loopStart 0 true, .submitRun 2 0, .passBegin, .passWake, .execFront, .act, .act, .act]).map
+    (fun s => (s.cancelled, idsOf (pend s))) = some ([4, 3], []) := by decide
+/-- `C01_eintr_keeps_wakeup` / `C01_wakeup_served`: two interrupted polls, then the wake-up is served -/
+example : (exec (fixedCfg witnessProg) init
+    [.loopStart 0 true, .submit 1 0, .fault (.poll .intr), .passBegin, .passSkip, .passNext, .passEnd,
+     .fault (.poll .err), .passBegin, .passSkip, .passNext, .passEnd, .passBegin, .passWake, .execFront]).map
+    (fun s => (s.executed, s.efd)) = some ([2], some 0) := by decide
+/-- `C01_read_fault_harmless`: a spurious report and a failed read; the extra wake-up costs one empty pass -/
+example : (exec (fixedCfg witnessProg) init
+    [.loopStart 0 true, .fault (.poll .spurious), .passBegin, .fault .rdFail, .passWake, .passNext, .passEnd,
+     .submit 1 0, .fault .rdFail, .passBegin, .passWake, .execFront, .passNext, .passEnd, .passBegin, .passWake]).map
+    (fun s => (s.executed, s.efd, s.hasCommit)) = some ([2], some 0, false) := by decide
+/-- `C01_poll_error_select_drains`: select engine, hard error, queued runNext work is drained -/
+example : (exec (fixedCfgSel witnessProg) init
+    [.idleAct 0 (.next 0), .loopStart 0 true, .fault (.poll .err), .passBegin, .passBreak, .drainGen, .drainExec, .drainEnd]).map
+    (fun s => (s.executed, s.phase)) = some ([3], .idle) := by decide
+/-- `C01_exit_timer_not_early` / `C01_exit_timer_fires`: a wait of 2^31 + 1 ms: not due after 2^31 ms, due one ms later -/
+example : (exec (fixedCfg witnessProg) init
+    [.idleAct 0 (.exitLater 2147483649), .loopStart 0 true, .tick 2147483648, .passBegin]).map
+    (fun s => (s.timerDue, pollTimeout (fixedCfg witnessProg) s)) = some (false, 1) := by decide
+example : (exec (fixedCfg witnessProg) init
+    [.idleAct 0 (.exitLater 2147483649), .loopStart 0 true]).map
+    (fun s => (waitTime s, pollTimeout (fixedCfg witnessProg) s, pollTimeout (fixedCfgSel witnessProg) s)) =
+    some (2147483649, 2147483647, 2147483649) := by decide
+example : (exec (fixedCfg witnessProg) init
+    [.idleAct 0 (.exitLater 2147483649), .loopStart 0 true, .tick 2147483649, .passBegin, .timerExit, .passSkip, .passNext, .passEnd]).map
+    (fun s => s.phase) = some .drain := by decide
+/-- `C01_cleanup_returns_idle`: queued work, cleanup() by the owner, loop reusable afterwards -/
+example : (exec (fixedCfg witnessProg) init
+    [.submit 1 0, .idleAct 0 (.next 0), .cleanup 0, .drainGen, .drainExec, .drainExec, .drainEnd, .submit 1 0, .loopStart 0 false]).map
+    (fun s => (s.executed, s.phase, s.efd)) = some ([2, 3], .poll, some 1) := by decide
+/-- `C01_waterline_independent`: a run with water line 0 logs notices, the queues are the same -/
+example : (exec (fixedCfg witnessProg) init [.setWL 0 0, .submit 1 0, .idleAct 0 (.next 0)]).map
+    (fun s => (s.notices, idsOf (pend s))) = some (2, [3, 2]) := by decide
+/-- `C01_nested_run_refused`: the act is enabled inside a callable of the running loop -/
+example : (exec (fixedCfg (fun k => if k = 1 then [.nestedRun, .next 0] else [])) init
+    [.submit 1 1, .loopStart 0 true, .passBegin, .passWake, .execFront, .act, .act]).map
+    (fun s => (idsOf s.nextQ, s.phase)) = some ([3], .wake) := by decide
 
 end Tbox.C01
